@@ -380,6 +380,28 @@ pub fn run_fcall()
 	}
 }
 
+// ---- keyoffset-eval: import path resolution ----------------------------------------------------------------------
+//   <filename> <path of includer> <key>*      paths as written, `-` for the empty path; answers the index or `none`
+pub fn run_keyoffset()
+{
+	let stdin = std::io::stdin();
+	for line in stdin.lock().lines()
+	{
+		let line = line.unwrap();
+		let w: Vec<String> = line.split(' ').filter(|x| !x.is_empty()).map(|x| if x == "-" { String::new() } else { x.to_string() }).collect();
+		let r = std::panic::catch_unwind(move || {
+			let keys: Vec<std::path::PathBuf> = w[2..].iter().map(|x| std::path::PathBuf::from(x)).collect();
+			penne::alpha::expander::verif_hooks::get_key_offset(&w[0], &keys, std::path::Path::new(&w[1]))
+		});
+		match r
+		{
+			Ok(Some(i)) => println!("{}", i),
+			Ok(None) => println!("none"),
+			Err(_) => println!("PANIC"),
+		}
+	}
+}
+
 pub fn run_mut()
 {
 	let stdin = std::io::stdin();
